@@ -31,15 +31,15 @@ Theorem C17_sequential_partial_fallback : forall (c : cfg) (init : store) (kinds
 Proof. exact fallback_read_sequential. Qed.
 Print Assumptions C17_sequential_partial_fallback.
 
-Theorem C17_bounded_2threads : forall x p, In x configs2 -> In p (all_plans 60 2 2) -> verdict_on x p = true.
+Theorem C17_bounded_2threads : forall x p, In x configs2 -> In p (all_plans 70 2 2) -> verdict_on x p = true.
 Proof. exact bounded_2threads. Qed.
 Print Assumptions C17_bounded_2threads.
 
-Theorem C17_bounded_3threads : forall x p, In x configs3 -> In p (all_plans 60 3 2) -> verdict_on x p = true.
+Theorem C17_bounded_3threads : forall x p, In x configs3 -> In p (all_plans 70 3 2) -> verdict_on x p = true.
 Proof. exact bounded_3threads. Qed.
 Print Assumptions C17_bounded_3threads.
 
-Theorem C17_plans_le2_preemptions : forall p, In p (all_plans 60 3 2) -> preemptions p <= 2.
+Theorem C17_plans_le2_preemptions : forall p, In p (all_plans 70 3 2) -> preemptions p <= 2.
 Proof. exact all_plans_le2_3. Qed.
 Print Assumptions C17_plans_le2_preemptions.
 
